@@ -284,3 +284,29 @@ def check_pairs(model, R, P_):
         resh = [norm(c) for c in ast.walk(f.node) if isinstance(c, ast.Call) and isinstance(c.func, ast.Attribute) and c.func.attr == 'reshape' and 'C * kernel_size[0] * kernel_size[1], -1, N' in norm(c)]
         ok = perms == [(2, 0, 1)] and len(resh) == 1
         R.ob(P_ + '.LAYOUT2D', f.qualname, 'inverse 2-D layout %s %s' % (resh, perms), ok, 'the column matrix is brought back by reshape(C*kH*kW, -1, N).transpose(2, 0, 1) (inverse of transpose(1, 2, 0))', f.loc)
+
+
+# ------------------------------------------------------------------------------------------------ STRIDED
+def check_strided(model, R, P_):
+    """the byte strides of the sliding-window view are computed for a C-contiguous array"""
+    R.rule(P_ + '.STRIDED', 'the array handed to as_strided (and whose row-major strides are computed by hand) is made C-contiguous first; element size comes from the array\'s own strides', floor=2)
+    f = model.func(CT + '.extract_windows')
+    cfg = CFG(f.node)
+    asv = [c for c in ast.walk(f.node) if isinstance(c, ast.Call) and norm(c.func).endswith('as_strided')]
+    cont = [n for n in body_walk(f.node) if isinstance(n, ast.Assign) and isinstance(n.value, ast.Call) and model.resolve(f.mod, n.value.func) == 'numpy.ascontiguousarray'
+            and norm(n.targets[0]) == norm(n.value.args[0]) == f.pos_params[0]]
+    ok = len(asv) == 1 and len(cont) == 1
+    if ok:
+        st = _stmt(f, asv[0])
+        conds = {(t, p) for t, p, _ in facts_at(cfg, cont[0])}
+        guard_ok = not conds or conds == {("a.flags['C_CONTIGUOUS']", False)}
+        # dominance of the guard (the If, or the statement itself when unconditional)
+        top = cont[0]
+        for s_ in f.node.body:
+            if any(x is cont[0] for x in ast.walk(s_)):
+                top = s_
+        ok = guard_ok and cfg.dominates(top, st) and norm(asv[0].args[0]) == f.pos_params[0]
+    R.ob(P_ + '.STRIDED', f.qualname, 'ascontiguousarray guard before as_strided', ok,
+         'hand-computed row-major strides are only valid for a C-contiguous array (np.pad keeps Fortran order, so padding alone is not enough)', f.loc)
+    nb = [n for n in body_walk(f.node) if isinstance(n, ast.Assign) and norm(n.targets[0]) == 'nbyte']
+    R.ob(P_ + '.STRIDED', f.qualname, norm(nb[0]) if nb else 'no element size', len(nb) == 1 and norm(nb[0].value) in ('a.strides[-1]',), 'the element stride must be taken from the (contiguous) array itself', f.loc)
